@@ -230,6 +230,8 @@ package kmipserver
 //@ ghostvar wgDone int
 //@ ghostvar okRecvs int
 //@ ghostvar lastRecvEnc bool
+//@ ghostvar lastRecvFailed bool
+//@ ghostvar lastRecvEOF bool
 //@ ghostvar sends int
 //@ ghostvar lastSent *kmip.ResponseMessage
 //@ ghostvar handled int
@@ -279,6 +281,8 @@ package kmipserver
 //@   pure
 //@   ghost okRecvs = old(okRecvs) + ite(r1 == nil, 1, 0)
 //@   ghost lastRecvEnc = isenc(r1)
+//@   ghost lastRecvFailed = r1 != nil
+//@   ghost lastRecvEOF = erris(r1, io.EOF)
 
 //@ func (*conn).send
 //@   trusted
@@ -310,9 +314,10 @@ package kmipserver
 //@   ensures handled-old(handled) == okRecvs-old(okRecvs)
 //@   ensures sends-old(sends) == okRecvs-old(okRecvs)+(errReplies-old(errReplies)) || sends-old(sends)+1 == okRecvs-old(okRecvs)+(errReplies-old(errReplies))
 //@   ensures errReplies == old(errReplies) || (errReplies == old(errReplies)+1 && lastRecvEnc && lastSent == errReply)
+//@   ensures connectCalls != old(connectCalls) && hookOK && lastRecvFailed && lastRecvEnc && !lastRecvEOF ==> errReplies == old(errReplies)+1 && lastSent == errReply
 //@   loop 0 invariant sends-old(sends) == okRecvs-old(okRecvs) && handled-old(handled) == okRecvs-old(okRecvs) && errReplies == old(errReplies)
 //@   loop 0 invariant termCalls == old(termCalls) && connectCalls == old(connectCalls)+1 && hookOK && newConns == old(newConns)+1 && closeCalls == old(closeCalls) && wgDone == old(wgDone)
-//@   loop 0 ghostmod okRecvs, lastRecvEnc, sends, lastSent, handled, errReplies, errReply
+//@   loop 0 ghostmod okRecvs, lastRecvEnc, lastRecvFailed, lastRecvEOF, sends, lastSent, handled, errReplies, errReply
 
 //@ func handleMessageError
 //@   requires ctx != nil && err != nil
